@@ -215,6 +215,7 @@ template <> struct SerOpt<true> {
 };
 // common part of every state: entry / exit logging.  SID = global state index (name table); data counts entries (C15/C16)
 template <int SID, bool SER = false> struct Beh : SerOpt<SER> {
+    static constexpr int verif_sid = SID;
     template <class E, class F> void on_entry(E const& e, F& f) { this->data++; cb("en", SNAME[SID], e, f, -1, true, true, -1); }
     template <class E, class F> void on_exit(E const& e, F& f) { cb("ex", SNAME[SID], e, f, -2, true, true, -1); }
 };
@@ -246,6 +247,7 @@ struct StI : msm::front::interrupt_state<Ends>, Beh<SID> { typedef Flags flag_li
 // front-end base of every machine.  SID = global state index of the machine's own name.
 template <class Derived, int SID, bool SER = false>
 struct MDef : msm::front::state_machine_def<Derived>, SerOpt<SER> {
+    static constexpr int verif_sid = SID;
     int vinst = -1;
     template <class E, class F> void on_entry(E const& e, F& f) { this->data++; cb("en", SNAME[SID], e, f, -1, true, true, -1); }
     template <class E, class F> void on_exit(E const& e, F& f) { cb("ex", SNAME[SID], e, f, -2, true, true, -1); }
